@@ -74,7 +74,7 @@ Definition signed_in (lo hi : Z) (s : str) : bool :=
 
 (* ------------------------------------------------------------------ IP addresses (textual forms) *)
 
-Definition octet_ok : str -> bool := dec_in 0 255.
+Definition octet_ok : str -> bool := dec_in 0 255.   (* one to three digits *)
 
 (* dotted quad *)
 Definition ipv4_ok (s : str) : bool :=
@@ -131,18 +131,26 @@ Definition host_ok (s : str) : bool := subdomain_ok s || ip_ok s.
 
 (* ------------------------------------------------------------------ documented flag values *)
 
-(* <host>:<port>: a DNS name or IPv4 address, or an IPv6 address in brackets, then a port 1..65535 *)
-Definition doc_endpoint (s : str) : bool :=
+(* <host>:<port> with a port 1..65535: the host a DNS name or an IPv4 address ... *)
+Definition doc_endpoint_plain (s : str) : bool :=
+  match split_last c_colon s with
+  | None => false
+  | Some (h, p) => port_ok p && (subdomain_ok h || ipv4_ok h)
+  end.
+
+(* ... or an IPv6 address in square brackets *)
+Definition doc_endpoint_v6 (s : str) : bool :=
   match split_last c_colon s with
   | None => false
   | Some (h, p) =>
       port_ok p &&
-      (subdomain_ok h || ipv4_ok h ||
-       match h with
-       | c :: r => Ascii.eqb c c_lbr && negb (is_nil r) && Ascii.eqb (last r c) c_rbr && ipv6_ok (removelast r)
-       | [] => false
-       end)
+      match h with
+      | c :: r => Ascii.eqb c c_lbr && negb (is_nil r) && Ascii.eqb (last r c) c_rbr && ipv6_ok (removelast r)
+      | [] => false
+      end
   end.
+
+Definition doc_endpoint (s : str) : bool := doc_endpoint_plain s || doc_endpoint_v6 s.
 
 (* the port is optional: a bare DNS name or IP address is documented as well *)
 Definition doc_endpoint_opt (s : str) : bool := doc_endpoint s || host_ok s.
@@ -190,6 +198,14 @@ Definition port_text (s : str) : option str :=
       if Ascii.eqb c c_lbr || (count_char c_colon s =? 1)
       then option_map snd (split_last c_colon s) else None
   | [] => None
+  end.
+
+(* accepted endpoint: one safe token, only bytes of the grammar, port (where the notation shows one) in range *)
+Definition endpoint_sound (port_required : bool) (s : str) : bool :=
+  safe_token s && forallb endpoint_char s &&
+  match port_text s with
+  | Some p => if is_nil p then negb port_required else signed_in 1 65535 p
+  | None => negb port_required
   end.
 
 (* ------------------------------------------------------------------ what mgmt.conf must tokenise to *)
